@@ -92,36 +92,46 @@ def run(ctx, rep):
                     rep.fail('R-C20-1t', '%s: raw name %s on stdout' % (fn, e), c.loc(), 'name printed without fmt_term', function=fn, construct='raw name on terminal')
             if len(bufs) > 1 and len(set(bufs)) != len(bufs):
                 rep.fail('R-C20-1t', '%s: two names share one buffer' % fn, c.loc(), str(bufs), function=fn, construct='shared buffer')
-    # escaper table from the switch in esc_tag
+    # esc_tag decided semantically: interpreted over every byte value and every pair around the special characters
+    from .. import region as RG
     e = P.fn('esc_tag')
     rep.analysed(e)
-    sw = [e.term(b) for b in range(len(e.blocks)) if e.term(b).op == 'switch']
-    ok = len(sw) == 1
-    det = ''
-    if ok:
-        table = {}
-        for cv, cb in sw[0].cases:
-            # constants stored through the output pointer in the region of this case (until the join)
-            seq = []
-            seen = set()
-            st = [cb]
-            while st:
-                x = st.pop()
-                if x in seen or x == sw[0].default:
-                    continue
-                seen.add(x)
-                for i in e.blocks[x]:
-                    if i.op == 'store' and e.const_of(i.ops[0]) is not None and e.strip(i.ops[1])[0] == 'i' and e.inst_of(i.ops[1]).op == 'load':
-                        seq.append(e.const_of(i.ops[0]) & 0xff)
-                for s_ in e.succ[x]:
-                    if len(e.pred[s_]) == 1 or e.bdominates(cb, s_) and not any(e.bdominates(cb2, s_) for _, cb2 in sw[0].cases if cb2 != cb) and s_ not in [cb3 for _, cb3 in sw[0].cases]:
-                        if len(seq) < 2:
-                            st.append(s_)
-            table[cv] = tuple(seq[:2])
-        esc = {t[0] for t in table.values() if t}
-        ok = set(table) >= {10, 13, 58} and len(esc) == 1 and list(esc)[0] in table and len(set(table.values())) == len(table) and all(len(t) == 2 for t in table.values())
-        det = str({chr(k) if 32 <= k < 127 else k: ''.join(chr(x) for x in v) for k, v in table.items()})
-    rep.check(ok, 'R-C20-2', 'esc_tag escape table is injective and self-escaping', e.file, det, function='esc_tag', construct='escape table')
+    def esc(bs):
+        R = RG.Region(P, extern=lambda ins, args: None)
+        sp = RG.P_(('str', 'in'), 0)
+        for k, v in enumerate(bs):
+            R.mem[(sp.reg, k)] = v
+        R.mem[(sp.reg, len(bs))] = 0
+        out = RG.P_(('buf', 'out'), 0)
+        try:
+            r = R.run(e, 0, [sp, out])
+        except RG.Unsupported as ex:
+            raise AnalysisBroken('cannot interpret esc_tag: %s' % ex)
+        res = []
+        k = 0
+        while True:
+            v = R.mem.get((r.reg, r.off + k))
+            if v is None:
+                raise AnalysisBroken('esc_tag output is not terminated')
+            v &= 0xff
+            if v == 0:
+                break
+            res.append(v); k += 1
+        return bytes(res)
+    special = [10, 13, 58, 92]
+    inputs = [bytes([c]) for c in range(1, 256)] + [bytes([a_, b_]) for a_ in special + [65, 110, 100, 114] for b_ in special + [65, 110, 100, 114]]
+    outs = {}
+    bad_ = None
+    for inp in inputs:
+        o = esc(inp)
+        if any(x in o for x in (10, 13, 58)) and bad_ is None:
+            bad_ = 'input %r is written as %r: a raw line/field separator reaches the log line' % (inp, o)
+        if o in outs and outs[o] != inp and bad_ is None:
+            bad_ = 'inputs %r and %r are both written as %r: the tag cannot be decoded' % (outs[o], inp, o)
+        outs[o] = inp
+        if len(inp) == 1 and inp[0] not in special and o != inp and bad_ is None:
+            bad_ = 'ordinary character %r is altered to %r' % (inp, o)
+    rep.check(bad_ is None, 'R-C20-2', 'esc_tag never emits a raw LF / CR / colon, is injective, and copies every other byte (all 255 byte values, 64 pairs around the special characters)', e.file, '%d inputs' % len(inputs) if bad_ is None else bad_, function='esc_tag', construct='escape function')
     # dup
     d = P.fn('state_dup')
     ha = list(d.calls('hash_alloc'))
